@@ -11,6 +11,12 @@
 //  3. a sample of 1 and 2 compiled and run by gc (`go run`, offline): validates Spec/GoInt and
 //     Model/Eval themselves (spec_validation in the evidence), independent of the model.
 //
+//  5. the emitter model against the disassembled code (compile.go); 6. conditions (cond.go);
+//  4. whole programs over a wide part of the language against gc (prog.go, gcdiff.go);
+//  7. the struct family: embedded structs, promoted fields, selector chains of different depths in
+//     different orders inside one function, against gc, the Lean evaluator of Model/Struct.lean
+//     and the field-index table model (structs.go, structrun.go).
+//
 // Oracle: the Lean evaluator's answer (Go semantics), with gc's own output on the sample.
 package main
 
@@ -19,6 +25,8 @@ import (
 	"math/big"
 	"os"
 	"strings"
+
+	"github.com/open2b/scriggo"
 
 	"verifharness/internal/hx"
 	"verifharness/internal/proto"
@@ -42,6 +50,10 @@ var findingFeatures = map[string][]string{
 	"deref-address-taken-pointer":    {"pointer.4"},
 	"named-result-set-after-recover": {"defer.2", "defer.3", "defer.6"},
 	"init-order-through-function":    {"initorder.0", "initorder.1", "initorder.2"},
+	// stream 7 (struct family)
+	"nonlocal-struct-nested-selector-assign": {"structrole.nonlocal-nested-assign"},
+	"range-struct-value-aliases-element":     {"structrole.range-value-modify"},
+	"nil-func-field-not-nil":                 {"structrole.nil-func-field"},
 }
 
 // ---------------------------------------------------------------- opcode-level cases
@@ -447,6 +459,43 @@ func (w *world) report(tc *tcase, name string) {
 
 func run(c *hx.Ctx) error {
 	res := c.Res
+	if files := os.Getenv("C01_DEV_RUNFILE"); files != "" {
+		// development aid: run complete programs (files, comma separated) with Scriggo and with gc
+		var progs []*program
+		for _, f := range strings.Split(files, ",") {
+			src, err := os.ReadFile(f)
+			if err != nil {
+				return err
+			}
+			progs = append(progs, rawProgram(string(src)))
+			if os.Getenv("C01_DEV_DIS") != "" {
+				if pr, err := scriggo.Build(scriggo.Files{"main.go": src}, nil); err == nil {
+					asm, _ := pr.Disassemble("main")
+					fmt.Printf("%s\n", asm)
+				}
+			}
+		}
+		sc, err := runScriggoPrograms(progs)
+		if err != nil {
+			return err
+		}
+		gcOut, gerr := runGCPrograms(progs)
+		for i := range progs {
+			fmt.Printf("---- scriggo %d\n%s", i, sc[i])
+			if gerr == nil {
+				fmt.Printf("---- gc %d (same=%v)\n%s", i, gcOut[i] == sc[i], gcOut[i])
+			} else {
+				fmt.Println("gc:", gerr)
+			}
+		}
+		return nil
+	}
+	if n := os.Getenv("C01_DEV_STRUCT"); n != "" {
+		// development aid: only the struct stream, n times the quick size
+		k := 1
+		fmt.Sscan(n, &k)
+		return structStream(c, 2*k, k, 300, 120, 80, 12)
+	}
 	if n := os.Getenv("C01_DEV_PROGRAMS"); n != "" {
 		// development aid: only the whole-program stream, no shrinking
 		k := 0
@@ -465,7 +514,7 @@ func run(c *hx.Ctx) error {
 		fmt.Sscan(n, &k)
 		return compileStream(c, &world{c: c}, k, false)
 	}
-	res.Rule = "stream 1: every binary/unary/shift/comparison/conversion operator × every integer kind × boundary-rich operand pairs (extremes, 0, ±1, 2^k±1, random), one tiny program each, three-way: Scriggo / generated VM term / Spec; stream 2: random typed expression trees of depth ≤ 4 over variables (local, parameter, package-level) and typed constants at every width, shifts with counts of every kind (small, ≥ width, huge; negative ones in their own sub-stream), division by zero under recover(); stream 5 (compile): trees of the same generator (no negative counts) as `func e(v0 T0, …) { r := <expr>; println(r) }`, the disassembled code of `r := <expr>` against the emitter model of Model/Compile.lean line by line with the same register numbers, and the outcome against the model VM running the model's code; stream 6 (conditions): boolean expressions of every shape emitCondition distinguishes (len of a string on either side × six operators × variable/constant/expression operand, integer comparisons at every kind, comparison with 0, nil, strings, floats, bools, constants, negations) with operand values at and next to the boundary, in if / if-else / for / switch case / switch tag / && / || / ! / value contexts, against the generator's own expectation, gc, and (shapes of Model/CompileCond.lean) the model's code and VM; a case is non-trivial when it contains at least one operator applied to a variable; distinct by protocol line"
+	res.Rule = "stream 1: every binary/unary/shift/comparison/conversion operator × every integer kind × boundary-rich operand pairs (extremes, 0, ±1, 2^k±1, random), one tiny program each, three-way: Scriggo / generated VM term / Spec; stream 2: random typed expression trees of depth ≤ 4 over variables (local, parameter, package-level) and typed constants at every width, shifts with counts of every kind (small, ≥ width, huge; negative ones in their own sub-stream), division by zero under recover(); stream 5 (compile): trees of the same generator (no negative counts) as `func e(v0 T0, …) { r := <expr>; println(r) }`, the disassembled code of `r := <expr>` against the emitter model of Model/Compile.lean line by line with the same register numbers, and the outcome against the model VM running the model's code; stream 6 (conditions): boolean expressions of every shape emitCondition distinguishes (len of a string on either side × six operators × variable/constant/expression operand, integer comparisons at every kind, comparison with 0, nil, strings, floats, bools, constants, negations) with operand values at and next to the boundary, in if / if-else / for / switch case / switch tag / && / || / ! / value contexts, against the generator's own expectation, gc, and (shapes of Model/CompileCond.lean) the model's code and VM; stream 7 (struct family): generated hierarchies of struct types (up to four levels, each level embedded or named in the next at a random field position, unique field names) and one function per case over parameters of these types — a matrix of ordered pairs of selector chains of the top type lying on one line (one flattened index path a prefix of the other, or the same place through different promoted/explicit steps) × role (read, assignment, op-assignment / assignment of a composite literal), random bodies of the language of Model/Struct.lean (copies, chains, nested composite literals, +, ==, =, +=, ++ through chains), and the same bodies with snippets outside the model (pointer to struct, address of a field, package-level struct, closure, field of a call result, slice / map / array of structs, range, new, by-value call, interface, comparison, defer, func-typed and pointer fields, embedded pointers with nil), every case against gc, the in-model ones against the Lean evaluator and their Field/SetField paths as disassembled against the model's field-index table trace and against the requested paths; a case is non-trivial when it contains at least one operator applied to a variable; distinct by protocol line"
 	w := &world{c: c}
 
 	// known findings: replay the recorded minimal on the real code first
@@ -752,6 +801,11 @@ func run(c *hx.Ctx) error {
 	}
 	// ---- stream 6: conditions (emitCondition) at and around the boundaries, gc as oracle
 	if err := conditionStream(c, c.N(2000, 10000), true); err != nil {
+		return err
+	}
+	// ---- stream 7: struct values, embedded structs, promoted fields, selector chains (gc, the Lean
+	// evaluator, the field-index table as the disassembler shows it)
+	if err := structStream(c, c.N(2, 6), c.N(1, 3), c.N(300, 2500), c.N(120, 400), c.N(80, 250), c.N(12, 40)); err != nil {
 		return err
 	}
 	res.Histogram["scriggo-builds"] = w.builds
